@@ -619,9 +619,7 @@ def rule_r8(ctx: Ctx) -> None:
                 if got != want:
                     bad.append({"x": x, "alignment": r, "found": got, "expected": want})
         ctx.check(not bad, pad.short, norm(v), "_pad rounds up to the next multiple of the alignment (all 1190 points of the grid)", pad.where(), bad[:4])
-    lcm = repo.module(SYM).functions.get("least_common_multiple")
-    if lcm is None:
-        raise AnalysisError("anchor least_common_multiple missing")
+    lcm = ctx.func(SYM + ".least_common_multiple")  # (wherever it is defined, as seen from the operators' module)
     lv = single_return(ctx, lcm)
     bad = []
     if lv is None:
